@@ -466,12 +466,23 @@ class CFG:
             after = self.new("join")
             bj = self.new("join")
             it.add("iter", bj)
-            fr = {"kind": "loop", "break": after, "continue": it, "used_break": False}
+            rng = s.iter if (isinstance(s, ast.For) and isinstance(s.iter, ast.Call) and isinstance(s.iter.func, ast.Name) and s.iter.func.id == "range"
+                             and len(s.iter.args) == 1 and not s.iter.keywords and isinstance(s.iter.args[0], (ast.Name, ast.Attribute))) else None
+            back_head = it
+            if rng is not None:
+                # `for _ in range(n)`: the first arrival is kept apart from the later ones (a separate head node for the back edges and
+                # `continue`), so that the exploration can drop the zero-iteration exit when `n > 0` is known on entry
+                it.info["first_range"] = ast.unparse(rng.args[0])
+                back_head = self.new("for_iter", s)
+                back_head.add("iter", bj)
+            fr = {"kind": "loop", "break": after, "continue": back_head, "used_break": False}
             be = self.block(s.body, bj, frames + [fr])
             if be is not None:
-                be.add("back", it)
+                be.add("back", back_head)
             ej = self.new("join")
             it.add("done", ej)
+            if back_head is not it:
+                back_head.add("done", ej)
             ee = self.block(s.orelse, ej, frames)
             if ee is not None:
                 ee.add("next", after)
